@@ -3,7 +3,7 @@ ID = "C02"
 PROP = {
     "coq_targets": ["Properties/C02.vo", "Extract/ExUrl.vo"],
     "driver": {"model": "url_model.ml", "src": "drv_url.ml", "exe": "url_driver"},
-    "bin": "urlhist",
+    "bin": "c02",
     "harness_args": ["C02"],
     "profiles": ["dev"],
     "rule": "streams: corpus of histories; exhaustive (every start URL of the start pool x every operation kind x every argument of the delimiter-rich argument pool, one step each); random histories of 1-8 mutating calls (Url::set_*, set_ip_host, path_segments_mut sessions, quirks setters) from pool or randomly generated parsed URLs. After every step the model and the implementation are compared on the whole record (serialization, 7 offsets, host kind, port) and status; accessors / quirks getters / Position ranges on a sample. The property itself (Url::parse(u.as_str()) gives the same record, harness/src/urlprops.rs prop_c02) is evaluated on the implementation only in search mode, on the steps and records where model and implementation differ and then on the streams. Non-trivial = every step/observation; distinct = distinct request lines.",
